@@ -1,114 +1,1021 @@
-//! probe (temporary)
+//! C19 driver: replays the governance configurations enumerated by TLC (spec/MC_Governance.tla) on a real
+//! CognitiveNexus.
+//!
+//!   drive_governance run <cases.jsonl>
+//!
+//! Part 1 (non-interference).  Per population one FULL store is built by the owner (the system session) with KML +
+//! Session::classify.  Every configuration is written through the HOST CONTROL PLANE (GovernanceStore:
+//! ensure_principal, set_principal_status, put_group, create_grant / revoke_grant, create_delegation /
+//! revoke_delegation, publish_policy; Store::put_space for owners / bound policy / Space status) with principals,
+//! group and policy ids that are fresh per case.  For every evaluated principal p a battery of KQL / META commands
+//! is executed through Session::execute and compared with
+//!   - the gate TLC computed (a command whose permissions p does not hold at Space scope must answer NotAuthorized),
+//!   - the OWNER's answer to the same command on a CLONE that holds only the elements TLC says p may read (with the
+//!     members TLC says the read masks left out): same rows, same order, same counts, same pages and cursors, an
+//!     id of a hidden element answers like an id that was never written,
+//!   - for AS OF / snapshot-token reads: the owner's answer at the same coordinate of the same store restricted to
+//!     the readable ids.
+//! Part 2 (only the control plane changes authority).  For `mut` cases a disposable store is built, the gov_*
+//! collections and every element's governance block are dumped, a battery of KML / KQL / META commands is sent by
+//! the non-owner writers, and the dump is taken again: every gov_* collection except gov_audit must be
+//! byte-identical, gov_audit may only have grown (every earlier record byte-identical), and every element that
+//! existed before must carry a byte-identical governance block.
+//!
+//! Output: one JSON line per mismatch ({"mismatch":true,...}) and a final {"summary":true,...} line.
 use anda_cognitive_nexus::{
     CognitiveNexus, ElementId,
     governance::{
         AuthContext, SYSTEM_PRINCIPAL,
-        rows::{AuthorityConstraints, AuthorityScope, principal_class},
-        store::{GrantDraft, PrincipalDraft},
+        rows::{AuthorityConditions, AuthorityConstraints, AuthorityScope, PolicyStatement, principal_class},
+        store::{DelegationDraft, GrantDraft, GroupDraft, PolicyDraft, PrincipalDraft, delegation_id},
     },
     nexus::{DEFAULT_SPACE, Session},
 };
-use anda_kip::{Executor, Request, Response};
-use serde_json::{Value, json};
+use anda_kip::{Executor, Request};
+use futures::FutureExt;
+use serde_json::{Map, Value, json};
+use std::collections::{BTreeMap, HashMap};
+use std::io::BufRead;
+use std::panic::AssertUnwindSafe;
 use verif_harness::nexus::fresh;
 
-async fn run_as(session: &Session, command: &str, extra: Value) -> Response {
-    let mut req = json!({"kip": "2.0", "operations": [{"command": command}]});
-    if let Some(o) = extra.as_object() {
-        for (k, v) in o {
-            req[k] = v.clone();
-        }
-    }
-    let request = serde_json::from_value::<Request>(req).unwrap();
-    let parsed = match request.operations[0].parse() {
-        Ok(p) => p,
-        Err(e) => panic!("parse {command}: {e}"),
-    };
-    session.execute(parsed, &request, &request.operations[0]).await
+const CLS: [&str; 5] = ["public", "internal", "private", "sensitive", "secret"];
+const INFL: [&str; 4] = ["descriptive", "advisory", "behavioral", "executable"];
+
+fn cls_label(rank: i64) -> String {
+    if rank < 0 { String::new() } else { CLS[rank as usize].to_string() }
 }
 
-fn show(tag: &str, r: &Response) {
-    println!("--- {tag}\n{}", serde_json::to_string_pretty(&serde_json::to_value(r).unwrap()).unwrap());
+fn time_of(t: i64) -> String {
+    // Governance.tla: Now = 10; 0 = unstated
+    if t == 0 {
+        String::new()
+    } else {
+        format!("{}-01-01T00:00:00.000Z", 2026 + (t - 10))
+    }
+}
+
+fn strs(v: &Value) -> Vec<String> {
+    v.as_array().map(|a| a.iter().filter_map(|x| x.as_str().map(String::from)).collect()).unwrap_or_default()
+}
+fn ints(v: &Value) -> Vec<i64> {
+    v.as_array().map(|a| a.iter().filter_map(|x| x.as_i64()).collect()).unwrap_or_default()
+}
+
+/// The text every population element carries: (name, tag words, rank).  Every tag has four words, so BM25 orders
+/// "zebra" by term frequency whatever the corpus statistics of the store are.
+fn texts(pop: &str, i: usize) -> (String, &'static str, i64) {
+    let a = ["zebra zebra zebra alpha", "zebra zebra beta beta", "zebra gamma gamma gamma", "zebra zebra zebra zebra",
+             "", ""];
+    let b = ["zebra zebra zebra zebra", "zebra zebra zebra zebra", "zebra zebra zebra zebra", "zebra zebra zebra zebra",
+             "zebra zebra alpha alpha", "zebra beta beta beta"];
+    let ranks = [3, 1, 4, 2, 6, 5];
+    (format!("N{i}"), if pop == "B" { b[i - 1] } else { a[i - 1] }, ranks[i - 1])
+}
+
+// ------------------------------------------------------------------------------------------------------------
+// running commands
+
+struct Extra {
+    token: Option<String>,
+    purpose: Option<String>,
+}
+
+/// Runs one command; a panic in the code under test is data.
+async fn exec(session: &Session, command: &str, params: Value, extra: &Extra) -> Value {
+    let mut req = json!({"kip": "2.0", "operations": [{"command": command, "parameters": params}]});
+    if let Some(t) = &extra.token {
+        req["read"] = json!({"snapshot_token": t});
+    }
+    if let Some(p) = &extra.purpose {
+        req["context"] = json!({"purpose": p});
+    }
+    let request = match serde_json::from_value::<Request>(req) {
+        Ok(r) => r,
+        Err(e) => return json!({"tool": format!("request: {e}")}),
+    };
+    let parsed = match request.operations[0].parse() {
+        Ok(p) => p,
+        Err(e) => return json!({"parse_error": format!("{e}")}),
+    };
+    let fut = AssertUnwindSafe(session.execute(parsed, &request, &request.operations[0])).catch_unwind();
+    match fut.await {
+        Ok(resp) => serde_json::to_value(&resp).unwrap_or(json!({"tool": "response not serialisable"})),
+        Err(p) => {
+            let msg = p.downcast_ref::<String>().cloned().or_else(|| p.downcast_ref::<&str>().map(|s| s.to_string()));
+            json!({"panic": msg.unwrap_or_default()})
+        }
+    }
+}
+
+fn err_code(resp: &Value) -> Option<String> {
+    if let Some(p) = resp.get("panic") {
+        return Some(format!("PANIC: {p}"));
+    }
+    if let Some(p) = resp.get("parse_error") {
+        return Some(format!("PARSE: {p}"));
+    }
+    if let Some(p) = resp.get("tool") {
+        return Some(format!("TOOL: {p}"));
+    }
+    if let Some(c) = resp["error"]["code"].as_str() {
+        return Some(c.to_string());
+    }
+    if let Some(c) = resp["results"][0]["error"]["code"].as_str() {
+        return Some(c.to_string());
+    }
+    if resp["status"].as_str() != Some("succeeded") {
+        return Some(format!("status:{}", resp["status"]));
+    }
+    None
+}
+fn result_of(resp: &Value) -> Value {
+    resp["results"][0]["result"].clone()
+}
+fn cursor_of(resp: &Value) -> Option<String> {
+    resp["next_cursor"].as_str().or(resp["results"][0]["next_cursor"].as_str()).map(String::from)
+}
+
+// ------------------------------------------------------------------------------------------------------------
+// stores
+
+struct Elem {
+    kind: String,
+    typ: String,
+    cls: i64,
+    refs: Vec<i64>,
+}
+
+fn elems_of(case: &Value) -> Vec<Elem> {
+    case["elems"].as_array().unwrap().iter().map(|e| Elem {
+        kind: e["kind"].as_str().unwrap().to_string(),
+        typ: e["type"].as_str().unwrap().to_string(),
+        cls: e["cls"].as_i64().unwrap(),
+        refs: { let mut r = ints(&e["refs"]); r.sort(); r },
+    }).collect()
+}
+
+struct Pop {
+    nexus: CognitiveNexus,
+    /// element index (1-based) -> element id in this store
+    ids: Vec<Option<String>>,
+    /// element index -> the transaction that created it
+    tx_create: Vec<Option<String>>,
+    /// Space sequence after the element was created / after it was classified
+    seq_created: Vec<u64>,
+    seq_done: Vec<u64>,
+    /// type name -> exact schema reference
+    types: HashMap<String, String>,
+    idmap: HashMap<String, usize>,
+}
+
+impl Pop {
+    fn missing_id(kind: &str) -> &'static str {
+        if kind == "proposition" { "P-9999" } else { "C-9999" }
+    }
+    fn subst(&self, template: &str, elems: &[Elem]) -> String {
+        let mut s = template.to_string();
+        for i in 1..=elems.len() {
+            let id = self.ids[i].clone().unwrap_or_else(|| Self::missing_id(&elems[i - 1].kind).to_string());
+            s = s.replace(&format!("{{E{i}}}"), &id);
+            let tx = self.tx_create[i].clone().unwrap_or_else(|| format!("{DEFAULT_SPACE}#9999"));
+            s = s.replace(&format!("{{TX{i}}}"), &tx);
+        }
+        s
+    }
+}
+
+struct Shape {
+    present: Vec<bool>,
+    hide_name: Vec<bool>,
+    hide_attrs: Vec<bool>,
+}
+
+impl Shape {
+    fn full(n: usize) -> Self {
+        Shape { present: vec![true; n + 1], hide_name: vec![false; n + 1], hide_attrs: vec![false; n + 1] }
+    }
+    fn key(&self) -> String {
+        (1..self.present.len())
+            .filter(|i| self.present[*i])
+            .map(|i| format!("{i}{}{}", if self.hide_name[i] { "n" } else { "" }, if self.hide_attrs[i] { "a" } else { "" }))
+            .collect::<Vec<_>>()
+            .join(",")
+    }
+}
+
+static COUNTER: std::sync::atomic::AtomicU64 = std::sync::atomic::AtomicU64::new(0);
+
+async fn build_pop(pop: &str, elems: &[Elem], shape: &Shape) -> Pop {
+    let n = COUNTER.fetch_add(1, std::sync::atomic::Ordering::SeqCst);
+    let nexus = fresh(&format!("gov{}_{n}", std::process::id())).await;
+    let owner = nexus.system_session();
+    let none = Extra { token: None, purpose: None };
+    let mut p = Pop {
+        nexus: nexus.clone(),
+        ids: vec![None; elems.len() + 1],
+        tx_create: vec![None; elems.len() + 1],
+        seq_created: vec![0; elems.len() + 1],
+        seq_done: vec![0; elems.len() + 1],
+        types: HashMap::new(),
+        idmap: HashMap::new(),
+    };
+    for (k, e) in elems.iter().enumerate() {
+        let i = k + 1;
+        let cur = nexus.store.get_space(DEFAULT_SPACE).await.unwrap().seq;
+        p.seq_created[i] = cur;
+        p.seq_done[i] = cur;
+        if !shape.present[i] {
+            continue;
+        }
+        let (name, tag, rank) = texts(pop, i);
+        let resp = if e.kind == "concept" {
+            let mut body = format!(r#"TYPE "{}""#, e.typ);
+            if !shape.hide_name[i] {
+                body.push_str(&format!(r#" NAME "{name}""#));
+            }
+            if !shape.hide_attrs[i] {
+                body.push_str(&format!(r#" SET ATTRIBUTES {{tag: "{tag}", rank: {rank}}}"#));
+            }
+            exec(&owner, &format!("CREATE CONCEPT ?x {{ {body} }}"), json!({}), &none).await
+        } else {
+            let (s, o) = (e.refs[0] as usize, e.refs[1] as usize);
+            let (Some(s), Some(o)) = (p.ids[s].clone(), p.ids[o].clone()) else {
+                continue; // an endpoint does not exist in this clone: the tuple cannot either
+            };
+            exec(&owner, &format!(r#"ENSURE PROPOSITION ?x (:s, "{}", :o)"#, e.typ), json!({"s": s, "o": o}), &none).await
+        };
+        if let Some(c) = err_code(&resp) {
+            panic!("population element {i} could not be created: {c} {resp}");
+        }
+        let id = result_of(&resp)["handles"]["x"].as_str().expect("handle").to_string();
+        p.tx_create[i] = resp["receipt"]["tx_id"].as_str().map(String::from);
+        p.seq_created[i] = resp["receipt"]["space_seq"].as_u64().unwrap_or(0);
+        if e.cls >= 0 {
+            let eid: ElementId = id.parse().unwrap();
+            owner.classify(DEFAULT_SPACE, eid, &cls_label(e.cls)).await.expect("classify");
+        }
+        p.seq_done[i] = nexus.store.get_space(DEFAULT_SPACE).await.unwrap().seq;
+        let el = nexus.store.get_element(id.parse().unwrap()).await.unwrap();
+        p.types.insert(e.typ.clone(), el.schema_ref().to_string());
+        p.idmap.insert(id.clone(), i);
+        p.ids[i] = Some(id);
+    }
+    p
+}
+
+// ------------------------------------------------------------------------------------------------------------
+// normalisation: what two stores can be compared on
+
+const ELEMENT_KEYS: [&str; 9] =
+    ["id", "kind", "name", "attributes", "schema_ref", "governance", "subject", "object", "predicate_ref"];
+const VOLATILE: [&str; 17] = [
+    "_system", "committed_at", "tx_id", "space_seq", "snapshot_seq", "created_at", "updated_at", "score",
+    "search_context", "caveat", "integrity", "source", "manifest", "schema", "context",
+    "schema_environment_version", "snapshot_token",
+];
+
+fn empty(v: &Value) -> bool {
+    match v {
+        Value::Null => true,
+        Value::String(s) => s.is_empty(),
+        Value::Object(o) => o.is_empty(),
+        Value::Array(a) => a.is_empty(),
+        _ => false,
+    }
+}
+
+fn norm(v: &Value, pop: &Pop) -> Value {
+    match v {
+        Value::String(s) => match pop.idmap.get(s) {
+            Some(k) => Value::String(format!("#{k}")),
+            None => v.clone(),
+        },
+        Value::Array(a) => Value::Array(a.iter().map(|x| norm(x, pop)).collect()),
+        Value::Object(o) => {
+            let is_element = o.contains_key("id") && o.contains_key("kind") && o.contains_key("space_id");
+            let mut out = Map::new();
+            for (k, x) in o {
+                if VOLATILE.contains(&k.as_str()) {
+                    continue;
+                }
+                if is_element && !ELEMENT_KEYS.contains(&k.as_str()) {
+                    continue;
+                }
+                let nx = norm(x, pop);
+                if is_element && empty(&nx) {
+                    continue;
+                }
+                out.insert(k.clone(), nx);
+            }
+            Value::Object(out)
+        }
+        _ => v.clone(),
+    }
+}
+
+// ------------------------------------------------------------------------------------------------------------
+// the battery
+
+#[derive(Clone, PartialEq)]
+enum Mode {
+    Plain,
+    /// follow next_cursor to the end; the answer is the list of pages and the list of cursors
+    Paged,
+    /// only whether it is permitted is comparable (the payload is a coordinate of the store)
+    GateOnly,
+    /// DESCRIBE ACCESS: the permission names held at Space scope
+    Access,
+    /// DESCRIBE PRIMER: Space-wide counts withheld unless the authority reaches the whole Space
+    Primer,
+    /// a read at a past coordinate: compared with the owner's answer at the same coordinate, restricted
+    AsOf(usize),
+    /// the same through read.snapshot_token
+    Token(usize),
+}
+
+#[derive(Clone)]
+struct Cmd {
+    name: String,
+    text: String,
+    needs: Vec<&'static str>,
+    mode: Mode,
+    /// touches propositions (undecidable when a readable tuple has a hidden endpoint / masked members)
+    props: bool,
+    /// the masked member the command probes (for the classification of a mismatch)
+    probe: &'static str,
+}
+
+fn cmd(name: &str, text: &str, needs: &[&'static str], mode: Mode, props: bool, probe: &'static str) -> Cmd {
+    Cmd { name: name.to_string(), text: text.to_string(), needs: needs.to_vec(), mode, props, probe }
+}
+
+fn battery(elems: &[Elem]) -> Vec<Cmd> {
+    let r = &["read"][..];
+    let rh = &["read", "read_history"][..];
+    let mut b = vec![
+        cmd("describe-access", "DESCRIBE ACCESS", &[], Mode::Access, false, ""),
+        cmd("describe-primer", "DESCRIBE PRIMER", &["discover"], Mode::Primer, false, ""),
+        cmd("list", r#"FIND(?c.id, ?c.name, ?c.attributes.tag) WHERE { ?c CONCEPT {} }"#, r, Mode::Plain, false, ""),
+        cmd("whole-elements", r#"FIND(?c) WHERE { ?c CONCEPT {type: "Person"} }"#, r, Mode::Plain, false, ""),
+        cmd("order-by-masked", r#"FIND(?c.id) WHERE { ?c CONCEPT {} } ORDER BY ?c.attributes.rank ASC"#, r, Mode::Plain, false, "attrs"),
+        cmd("order-by-name-desc-paged", r#"FIND(?c.id, ?c.name) WHERE { ?c CONCEPT {} } ORDER BY ?c.name DESC LIMIT 2"#, r, Mode::Paged, false, "name"),
+        cmd("page-by-one", r#"FIND(?c.id) WHERE { ?c CONCEPT {} } LIMIT 1"#, r, Mode::Paged, false, ""),
+        cmd("count", r#"FIND(COUNT(?c)) WHERE { ?c CONCEPT {} }"#, r, Mode::Plain, false, ""),
+        cmd("aggregates", r#"FIND(COUNT(?c), MAX(?c.attributes.rank), SUM(?c.attributes.rank)) WHERE { ?c CONCEPT {type: "Person"} }"#, r, Mode::Plain, false, "attrs"),
+        cmd("count-distinct-type", r#"FIND(COUNT(DISTINCT ?c.schema_ref)) WHERE { ?c CONCEPT {} }"#, r, Mode::Plain, false, ""),
+        cmd("filter-masked", r#"FIND(?c.id) WHERE { ?c CONCEPT {} FILTER(?c.attributes.rank > 1) }"#, r, Mode::Plain, false, "attrs"),
+        cmd("filter-name", r#"FIND(?c.id) WHERE { ?c CONCEPT {} FILTER(?c.name == "N4" || ?c.name == "N1") }"#, r, Mode::Plain, false, "name"),
+        cmd("tuples-prefers", r#"FIND(?p.id, ?s.id, ?o.name) WHERE { ?p PROPOSITION (?s, "prefers", ?o) }"#, r, Mode::Plain, true, ""),
+        cmd("tuples-mentions", r#"FIND(?p.id, ?s.name, ?o.id) WHERE { ?p PROPOSITION (?s, "mentions", ?o) }"#, r, Mode::Plain, true, ""),
+        cmd("tuples-count", r#"FIND(COUNT(?s)) WHERE { (?s, "mentions", ?o) }"#, r, Mode::Plain, true, ""),
+        cmd("optional", r#"FIND(?c.id, ?o.id) WHERE { ?c CONCEPT {type: "Person"} OPTIONAL { (?c, "prefers", ?o) } }"#, r, Mode::Plain, true, ""),
+        cmd("not", r#"FIND(?c.id) WHERE { ?c CONCEPT {type: "Person"} NOT { (?c, "mentions", ?o) } }"#, r, Mode::Plain, true, ""),
+        cmd("union", r#"FIND(?c.id) WHERE { ?c CONCEPT {type: "Preference"} UNION { ?c CONCEPT {name: "N4"} } }"#, r, Mode::Plain, false, "name"),
+        cmd("search", r#"SEARCH CONCEPT "zebra""#, &["search"], Mode::Plain, false, "attrs"),
+        cmd("search-paged", r#"SEARCH CONCEPT "zebra" LIMIT 1"#, &["search"], Mode::Paged, false, "attrs"),
+        cmd("search-hidden-word", r#"SEARCH CONCEPT "alpha""#, &["search"], Mode::Plain, false, "attrs"),
+        cmd("search-name", r#"SEARCH CONCEPT "N4""#, &["search"], Mode::Plain, false, "name"),
+        cmd("search-cognition", r#"SEARCH COGNITION "zebra" LIMIT 3"#, &["search"], Mode::Paged, false, "attrs"),
+        cmd("history-space", "HISTORY SPACE", rh, Mode::Plain, true, ""),
+        cmd("history-space-1", "HISTORY SPACE LIMIT 1", rh, Mode::Paged, true, ""),
+        cmd("history-space-2", "HISTORY SPACE LIMIT 2", rh, Mode::Paged, true, ""),
+        cmd("history-space-3", "HISTORY SPACE LIMIT 3", rh, Mode::Paged, true, ""),
+        cmd("history-space-range", "HISTORY SPACE FROM SEQ 1 LIMIT 4", rh, Mode::Paged, true, ""),
+        cmd("changes", "CHANGES AFTER SEQ 0", rh, Mode::Plain, true, ""),
+        cmd("snapshot", "SNAPSHOT", &["read_history"], Mode::GateOnly, false, ""),
+        cmd("export-concepts", r#"EXPORT CAPSULE ?c WHERE { ?c CONCEPT {} }"#, &["export"], Mode::Plain, true, ""),
+        cmd("export-tuples", r#"EXPORT CAPSULE ?p WHERE { ?p PROPOSITION (?s, "prefers", ?o) }"#, &["export"], Mode::Plain, true, ""),
+    ];
+    for (k, e) in elems.iter().enumerate() {
+        let i = k + 1;
+        if e.kind == "concept" {
+            b.push(cmd(&format!("by-id-{i}"), &format!(r#"FIND(?c.id, ?c.name) WHERE {{ ?c CONCEPT {{id: "{{E{i}}}"}} }}"#), r, Mode::Plain, false, ""));
+            b.push(cmd(&format!("name-matcher-{i}"), &format!(r#"FIND(?c.id) WHERE {{ ?c CONCEPT {{name: "N{i}"}} }}"#), r, Mode::Plain, false, "name"));
+            b.push(cmd(&format!("export-by-id-{i}"), &format!(r#"EXPORT CAPSULE ?c WHERE {{ ?c CONCEPT {{id: "{{E{i}}}"}} }}"#), &["export"], Mode::Plain, true, ""));
+        } else {
+            b.push(cmd(&format!("by-id-{i}"), &format!(r#"FIND(?p.id) WHERE {{ ?p PROPOSITION (id: "{{E{i}}}") }}"#), r, Mode::Plain, true, ""));
+        }
+        b.push(cmd(&format!("history-element-{i}"), &format!(r#"HISTORY ELEMENT "{{E{i}}}""#), rh, Mode::Plain, e.kind != "concept", ""));
+        b.push(cmd(&format!("history-element-paged-{i}"), &format!(r#"HISTORY ELEMENT "{{E{i}}}" LIMIT 1"#), rh, Mode::Paged, e.kind != "concept", ""));
+        b.push(cmd(&format!("describe-transaction-{i}"), &format!(r#"DESCRIBE TRANSACTION "{{TX{i}}}""#), &["read_history"], Mode::Plain, e.kind != "concept", ""));
+        b.push(cmd(&format!("as-of-created-{i}"), r#"FIND(?c.id) WHERE { ?c CONCEPT {} }"#, rh, Mode::AsOf(i), false, ""));
+    }
+    let n = elems.len();
+    b.push(cmd("as-of-tuples", r#"FIND(?p.id) WHERE { ?p PROPOSITION (?s, "mentions", ?o) }"#, rh, Mode::AsOf(n), true, ""));
+    b.push(cmd("snapshot-token-read", r#"FIND(?c.id) WHERE { ?c CONCEPT {} }"#, rh, Mode::Token(n), false, ""));
+    b.push(cmd("snapshot-token-early", r#"FIND(?c.id) WHERE { ?c CONCEPT {} }"#, rh, Mode::Token(2), false, ""));
+    b
+}
+
+/// Executes one battery command in one store and returns its comparable answer.
+async fn answer(session: &Session, pop: &Pop, elems: &[Elem], c: &Cmd, extra: &Extra) -> (Value, String) {
+    let text = pop.subst(&c.text, elems);
+    match &c.mode {
+        Mode::Paged => {
+            let mut pages = Vec::new();
+            let mut cursors = Vec::new();
+            let mut cursor: Option<String> = None;
+            for _ in 0..24 {
+                let t = match &cursor {
+                    Some(x) => format!(r#"{text} CURSOR "{x}""#),
+                    None => text.clone(),
+                };
+                let resp = exec(session, &t, json!({}), extra).await;
+                if let Some(code) = err_code(&resp) {
+                    if pages.is_empty() {
+                        return (json!({"err": code}), text);
+                    }
+                    return (json!({"err": code, "pages": pages, "cursors": cursors}), text);
+                }
+                let r = result_of(&resp);
+                pages.push(norm(if c.name.starts_with("search") { &r["hits"] } else { &r }, pop));
+                cursor = cursor_of(&resp);
+                match &cursor {
+                    Some(x) => cursors.push(Value::String(x.clone())),
+                    None => return (json!({"pages": pages, "cursors": cursors}), text),
+                }
+            }
+            (json!({"err": "paging never ended", "pages": pages, "cursors": cursors}), text)
+        }
+        Mode::AsOf(i) => {
+            let t = format!("{text} AS OF SEQ {}", pop.seq_created[*i]);
+            let resp = exec(session, &t, json!({}), extra).await;
+            match err_code(&resp) {
+                Some(code) => (json!({"err": code}), t),
+                None => (json!({"ok": norm(&result_of(&resp), pop)}), t),
+            }
+        }
+        Mode::Token(i) => {
+            let token = hex::encode(format!("kip:snapshot:{DEFAULT_SPACE}:{}", pop.seq_done[*i]));
+            let x = Extra { token: Some(token), purpose: extra.purpose.clone() };
+            let resp = exec(session, &text, json!({}), &x).await;
+            let t = format!("{text}  [read.snapshot_token = seq {}]", pop.seq_done[*i]);
+            match err_code(&resp) {
+                Some(code) => (json!({"err": code}), t),
+                None => (json!({"ok": norm(&result_of(&resp), pop)}), t),
+            }
+        }
+        _ => {
+            let resp = exec(session, &text, json!({}), extra).await;
+            match err_code(&resp) {
+                Some(code) => (json!({"err": code}), text),
+                None => {
+                    let r = result_of(&resp);
+                    let v = match c.mode {
+                        Mode::GateOnly => json!("permitted"),
+                        Mode::Access => {
+                            let mut held: Vec<String> = strs(&r["permissions"])
+                                .into_iter()
+                                .filter(|p| ["read", "search", "discover", "export", "read_history"].contains(&p.as_str()))
+                                .collect();
+                            held.sort();
+                            json!(held)
+                        }
+                        Mode::Primer => json!({"withheld": r["contents"]["withheld"].is_string(), "contents": r["contents"]}),
+                        _ => {
+                            if c.name.starts_with("search") {
+                                norm(&r["hits"], pop)
+                            } else if c.name.starts_with("export") {
+                                norm(&r["payload"]["records"], pop)
+                            } else {
+                                norm(&r, pop)
+                            }
+                        }
+                    };
+                    (json!({"ok": v, "cursor": cursor_of(&resp)}), text)
+                }
+            }
+        }
+    }
+}
+
+// ------------------------------------------------------------------------------------------------------------
+// configurations
+
+struct Applied {
+    principals: HashMap<String, String>,
+    deleg_ids: Vec<String>,
+}
+
+fn scope_of(v: &Value, pop: &Pop) -> AuthorityScope {
+    AuthorityScope {
+        kinds: strs(&v["kinds"]),
+        schema_refs: strs(&v["types"]).iter().map(|t| pop.types.get(t).cloned().unwrap_or_else(|| format!("kip://unknown/{t}"))).collect(),
+        classifications: ints(&v["classes"]).into_iter().map(cls_label).collect(),
+        elements: ints(&v["elems"]).into_iter().map(|i| pop.ids[i as usize].clone().unwrap()).collect(),
+    }
+}
+fn cond_of(v: &Value) -> AuthorityConditions {
+    let strength = match v["strength"].as_i64().unwrap_or(0) { 0 => "", 1 => "standard", _ => "strong" };
+    let pa = match v["pa"].as_i64().unwrap_or(0) { 0 => "", 1 => "session_bound", _ => "system_bound" };
+    AuthorityConditions {
+        purpose: strs(&v["purpose"]),
+        min_purpose_assurance: pa.to_string(),
+        min_auth_strength: strength.to_string(),
+        valid_from: time_of(v["from"].as_i64().unwrap_or(0)),
+        valid_until: time_of(v["until"].as_i64().unwrap_or(0)),
+    }
+}
+fn cons_of(v: &Value) -> AuthorityConstraints {
+    let infl = v["infl"].as_i64().unwrap_or(-1);
+    let mut fields = strs(&v["fields"]);
+    fields.sort();
+    AuthorityConstraints {
+        fields,
+        max_results: None,
+        max_influence_authority: if infl < 0 { String::new() } else { INFL[infl as usize].to_string() },
+        max_classification: cls_label(v["ceil"].as_i64().unwrap_or(-1)),
+        export: v["export"].as_bool().unwrap_or(false),
+    }
+}
+
+async fn apply(pop: &Pop, case: &Value, tag: &str) -> Applied {
+    let gov = pop.nexus.governance();
+    let cfg = &case["cfg"];
+    let mut principals: HashMap<String, String> = HashMap::new();
+    principals.insert("own".into(), SYSTEM_PRINCIPAL.to_string());
+    for p in ["a", "b", "c"] {
+        let id = format!("kip:principal:{tag}-{p}");
+        gov.ensure_principal(PrincipalDraft {
+            principal_id: id.clone(),
+            principal_class: principal_class::AGENT.to_string(),
+            display_name: p.to_string(),
+            auth_provider: "verif".to_string(),
+            auth_subject: id.clone(),
+        }).await.expect("ensure_principal");
+        principals.insert(p.to_string(), id);
+    }
+    let group = format!("kip:group:{tag}");
+    let members: Vec<String> = strs(&cfg["members"]).iter().map(|m| principals[m].clone()).collect();
+    if !members.is_empty() {
+        gov.put_group(GroupDraft { group_id: group.clone(), name: "g".into(), description: String::new(), members }, SYSTEM_PRINCIPAL)
+            .await.expect("put_group");
+    }
+    let mut revoke_grants = Vec::new();
+    for g in cfg["grants"].as_array().unwrap() {
+        let grp = g["grp"].as_bool().unwrap();
+        let row = gov.create_grant(GrantDraft {
+            space_id: DEFAULT_SPACE.to_string(),
+            grantee_principal: if grp { String::new() } else { principals[g["to"].as_str().unwrap()].clone() },
+            grantee_group: if grp { group.clone() } else { String::new() },
+            actions: strs(&g["acts"]),
+            scope: scope_of(&g["scope"], pop),
+            conditions: cond_of(&g["cond"]),
+            constraints: cons_of(&g["cons"]),
+            delegation_allowed: g["deleg"].as_bool().unwrap(),
+        }, SYSTEM_PRINCIPAL).await.expect("create_grant");
+        if g["status"] != "active" {
+            revoke_grants.push(row._id);
+        }
+    }
+    let mut deleg_ids: Vec<String> = Vec::new();
+    let mut revoke_delegs = Vec::new();
+    for d in cfg["delegs"].as_array().unwrap() {
+        let parent = d["parent"].as_i64().unwrap_or(0);
+        let from = principals[d["from"].as_str().unwrap()].clone();
+        let row = gov.create_delegation(DelegationDraft {
+            space_id: DEFAULT_SPACE.to_string(),
+            delegator_principal: from.clone(),
+            delegate_principal: principals[d["to"].as_str().unwrap()].clone(),
+            actions: strs(&d["acts"]),
+            scope: scope_of(&d["scope"], pop),
+            conditions: cond_of(&d["cond"]),
+            constraints: cons_of(&d["cons"]),
+            parent_delegation: if parent > 0 { deleg_ids[parent as usize - 1].clone() } else { String::new() },
+            may_redelegate: d["redeleg"].as_bool().unwrap(),
+        }, &from).await.expect("create_delegation");
+        deleg_ids.push(delegation_id(row._id));
+        if d["status"] != "active" {
+            revoke_delegs.push(row._id);
+        }
+    }
+    for id in revoke_grants {
+        gov.revoke_grant(id, SYSTEM_PRINCIPAL).await.expect("revoke_grant");
+    }
+    for id in revoke_delegs {
+        gov.revoke_delegation(id, SYSTEM_PRINCIPAL).await.expect("revoke_delegation");
+    }
+    for (p, st) in cfg["pstat"].as_object().unwrap() {
+        if st != "active" && p != "own" {
+            gov.set_principal_status(&principals[p], st.as_str().unwrap(), SYSTEM_PRINCIPAL).await.expect("set status");
+        }
+    }
+    let statements = cfg["policy"].as_array().unwrap();
+    if !statements.is_empty() {
+        let policy_id = format!("kip:policy:{tag}");
+        let sts: Vec<PolicyStatement> = statements.iter().map(|s| PolicyStatement {
+            effect: s["effect"].as_str().unwrap().to_string(),
+            principals: strs(&s["principals"]).iter().map(|p| principals[p].clone()).collect(),
+            groups: strs(&s["groups"]).iter().map(|_| group.clone()).collect(),
+            actions: strs(&s["acts"]),
+            resource: scope_of(&s["scope"], pop),
+            conditions: cond_of(&s["cond"]),
+            constraints: cons_of(&s["cons"]),
+            obligations: Default::default(),
+        }).collect();
+        gov.publish_policy(PolicyDraft { policy_id, space_id: DEFAULT_SPACE.into(), description: String::new(), statements: sts },
+                           SYSTEM_PRINCIPAL).await.expect("publish_policy");
+    }
+    let applied = Applied { principals, deleg_ids };
+    bind_space(pop, case, &applied, tag).await;
+    applied
+}
+
+/// Binds the case's policy / owners / Space status (Store::put_space, the host's handle).
+async fn bind_space(pop: &Pop, case: &Value, applied: &Applied, tag: &str) {
+    let cfg = &case["cfg"];
+    let mut space = pop.nexus.store.get_space(DEFAULT_SPACE).await.unwrap();
+    space.default_policy_id = if cfg["policy"].as_array().unwrap().is_empty() { String::new() } else { format!("kip:policy:{tag}") };
+    space.owners = strs(&cfg["owners"]).iter().map(|p| applied.principals[p].clone()).collect();
+    space.status = cfg["sstat"].as_str().unwrap().to_string();
+    pop.nexus.store.put_space(&space).await.expect("put_space");
+}
+
+async fn reset_space(pop: &Pop) {
+    let mut space = pop.nexus.store.get_space(DEFAULT_SPACE).await.unwrap();
+    space.default_policy_id = String::new();
+    space.owners = vec![SYSTEM_PRINCIPAL.to_string()];
+    space.status = "active".to_string();
+    pop.nexus.store.put_space(&space).await.expect("put_space");
+}
+
+fn session_of(pop: &Pop, applied: &Applied, cfg: &Value, p: &str) -> (Session, Extra) {
+    if p == "own" {
+        return (pop.nexus.system_session(), Extra { token: None, purpose: None });
+    }
+    let x = &cfg["ctx"][p];
+    let mut auth = AuthContext::principal(applied.principals[p].clone());
+    auth = auth.with_auth_strength(match x["strength"].as_i64().unwrap_or(1) { 0 => "none", 1 => "standard", _ => "strong" });
+    let purpose = x["purpose"].as_str().unwrap_or("").to_string();
+    let pa = x["pa"].as_i64().unwrap_or(0);
+    let mut declared = None;
+    if !purpose.is_empty() {
+        if pa >= 1 {
+            auth = auth.with_purpose(purpose, "session_bound");
+        } else {
+            // a purpose the caller merely declares in the envelope
+            declared = Some(purpose);
+        }
+    }
+    let chain: Vec<String> = ints(&x["chain"]).into_iter().map(|i| applied.deleg_ids[i as usize - 1].clone()).collect();
+    if !chain.is_empty() {
+        auth = auth.with_delegation_chain(chain);
+    }
+    (pop.nexus.session(auth), Extra { token: None, purpose: declared })
+}
+
+// ------------------------------------------------------------------------------------------------------------
+// part 2: dumps
+
+async fn rows_of(nexus: &CognitiveNexus, name: &str) -> BTreeMap<u64, String> {
+    let col = nexus.store.db.open_collection(name.to_string(), async |_c| Ok(())).await.expect("open collection");
+    let mut out = BTreeMap::new();
+    for id in col.ids() {
+        if let Ok(v) = col.get_as::<Value>(id).await {
+            out.insert(id, serde_json::to_string(&v).unwrap());
+        }
+    }
+    out
+}
+
+const GOV: [&str; 8] = ["gov_principals", "gov_principal_groups", "gov_actor_bindings", "gov_grants", "gov_delegations",
+                        "gov_policies", "gov_approvals", "gov_audit"];
+
+struct Dump {
+    gov: BTreeMap<String, BTreeMap<u64, String>>,
+    blocks: BTreeMap<String, (String, String)>,
+    space: String,
+}
+
+async fn dump(nexus: &CognitiveNexus) -> Dump {
+    let mut gov = BTreeMap::new();
+    for name in GOV {
+        gov.insert(name.to_string(), rows_of(nexus, name).await);
+    }
+    let mut blocks = BTreeMap::new();
+    let st = &nexus.store;
+    for (prefix, col) in [("C", st.concepts()), ("P", st.propositions()), ("A", st.assertions()), ("E", st.evidence()), ("V", st.activities())] {
+        for id in col.ids() {
+            if let Ok(v) = col.get_as::<Value>(id).await {
+                blocks.insert(format!("{prefix}-{id}"),
+                              (serde_json::to_string(&v["governance"]).unwrap(), v["state"].as_str().unwrap_or("").to_string()));
+            }
+        }
+    }
+    let sp = nexus.store.get_space(DEFAULT_SPACE).await.unwrap();
+    let space = serde_json::to_string(&json!({"owner": sp.owner_principal, "owners": sp.owners, "status": sp.status,
+        "policy": sp.default_policy_id, "trust": sp.trust_policy_id, "default_classification": sp.default_classification,
+        "audit_mode": sp.audit_mode, "policies": sp.policies})).unwrap();
+    Dump { gov, blocks, space }
+}
+
+fn writer_battery() -> Vec<(&'static str, Value)> {
+    vec![
+        (r#"CREATE CONCEPT ?x { TYPE "Person" NAME "W1" SET ATTRIBUTES {tag: "written"} }"#, json!({})),
+        (r#"CREATE CONCEPT ?x { TYPE "Person" NAME "W2" SET FIELDS {governance: {classification: "public"}} }"#, json!({})),
+        (r#"CREATE CONCEPT ?x { TYPE "Person" NAME "W3" SET ATTRIBUTES {governance: {classification: "public"}, classification: "public"} }"#, json!({})),
+        (r#"UPSERT CONCEPT ?x { MATCH {type: "Person", key: "person:w"} SET FIELDS {name: "W6"} SET ATTRIBUTES {tag: "upserted"} }"#, json!({})),
+        (r#"UPSERT CONCEPT ?x { MATCH {id: :id} SET ATTRIBUTES {tag: "upserted in place"} }"#, json!({"id": "{E3}"})),
+        (r#"CREATE EVIDENCE ?x { SET FIELDS {evidence_class: "Document", payload: "written"} }"#, json!({})),
+        (r#"CREATE ASSERTION ?x { SET FIELDS {proposition: :p, asserted_by: :s, stance: "support", mode: "stated", confidence: 0.7} }"#, json!({"p": "{E6}", "s": "{E1}"})),
+        (r#"CREATE ASSERTION ?x { SET FIELDS {proposition: :p, asserted_by: :s, stance: "support", mode: "stated", confidence: 0.6} }"#, json!({"p": "{E5}", "s": "{E1}"})),
+        (r#"RETRACT ASSERTION "A-1""#, json!({})),
+        (r#"SUPERSEDE ASSERTION "A-1" BY "A-2""#, json!({})),
+        (r#"MERGE CONCEPT ?source INTO ?target WHERE { ?source CONCEPT {id: :a} ?target CONCEPT {id: :b} }"#, json!({"a": "{E2}", "b": "{E1}"})),
+        (r#"UPDATE :x SET ATTRIBUTES {rank: 99}"#, json!({"x": "{E1}"})),
+        (r#"UPDATE :x SET FIELDS {governance: {classification: "public"}}"#, json!({"x": "{E4}"})),
+        (r#"UPDATE :x SET ATTRIBUTES {note: "about the tuple"}"#, json!({"x": "{E6}"})),
+        (r#"UPDATE :x SET FIELDS {name: "renamed"}"#, json!({"x": "{E4}"})),
+        (r#"ENSURE PROPOSITION ?x (:s, "mentions", :o)"#, json!({"s": "{E1}", "o": "{E4}"})),
+        (r#"MUTATE { CREATE CONCEPT ?n { TYPE "Preference" NAME "W4" } ENSURE PROPOSITION ?x (:s, "prefers", ?n) }"#, json!({"s": "{E4}"})),
+        (r#"SET RETENTION :x {retention_class: "standard", expires_at: "2030-01-01T00:00:00Z"}"#, json!({"x": "{E2}"})),
+        (r#"SET RETENTION :x {legal_hold: true}"#, json!({"x": "{E2}"})),
+        (r#"ARCHIVE :x"#, json!({"x": "{E2}"})),
+        (r#"ARCHIVE ?c WHERE { ?c CONCEPT {type: "Preference"} }"#, json!({})),
+        (r#"TOMBSTONE :x"#, json!({"x": "{E6}"})),
+        (r#"PURGE :x CONFIRM "PURGE""#, json!({"x": "{E5}"})),
+        (r#"PURGE :x REFERENCE POLICY "tombstone_reference" CONFIRM "PURGE""#, json!({"x": "{E4}"})),
+        (r#"PURGE ?c WHERE { ?c CONCEPT {name: "W1"} } CONFIRM "PURGE""#, json!({})),
+        (r#"FIND(?c) WHERE { ?c CONCEPT {} }"#, json!({})),
+        (r#"FIND(?c.governance.classification) WHERE { ?c CONCEPT {} } AS OF SEQ 2"#, json!({})),
+        (r#"SEARCH CONCEPT "zebra""#, json!({})),
+        (r#"HISTORY SPACE LIMIT 3"#, json!({})),
+        (r#"CHANGES AFTER SEQ 0"#, json!({})),
+        (r#"DESCRIBE ACCESS"#, json!({})),
+        (r#"DESCRIBE PRIMER"#, json!({})),
+        (r#"SNAPSHOT"#, json!({})),
+        (r#"EXPORT CAPSULE ?c WHERE { ?c CONCEPT {} }"#, json!({})),
+        (r#"PREVIEW KML "CREATE CONCEPT ?x { TYPE \"Person\" NAME \"W5\" }""#, json!({})),
+        (r#"VALIDATE KML "TOMBSTONE \"C-1\"""#, json!({})),
+        (r#"LIST TYPES"#, json!({})),
+    ]
+}
+
+async fn part2(case: &Value, elems: &[Elem], out: &mut Vec<Value>, stats: &mut Stats) {
+    let pop = build_pop(case["pop"].as_str().unwrap(), elems, &Shape::full(elems.len())).await;
+    let applied = apply(&pop, case, &format!("m{}", case["n"])).await;
+    let before = dump(&pop.nexus).await;
+    let mut log = Vec::new();
+    for e in case["expect"].as_array().unwrap() {
+        let p = e["p"].as_str().unwrap();
+        let (session, extra) = session_of(&pop, &applied, &case["cfg"], p);
+        for (text, params) in writer_battery() {
+            let params = Value::Object(params.as_object().unwrap().iter()
+                .map(|(k, v)| (k.clone(), Value::String(pop.subst(v.as_str().unwrap(), elems)))).collect());
+            let resp = exec(&session, text, params.clone(), &extra).await;
+            stats.commands += 1;
+            stats.writer_commands += 1;
+            let outcome = err_code(&resp).unwrap_or_else(|| "succeeded".to_string());
+            if outcome.starts_with("PANIC") {
+                out.push(json!({"mismatch": true, "part": 2, "case": case["n"], "fam": case["fam"], "p": p, "cmd": text,
+                                "reason": "the engine panicked", "got": outcome}));
+            }
+            log.push(json!([p, text, params, outcome]));
+        }
+    }
+    let after = dump(&pop.nexus).await;
+    let mut diffs = Vec::new();
+    for name in GOV {
+        let (b, a) = (&before.gov[name], &after.gov[name]);
+        for (id, row) in b {
+            match a.get(id) {
+                Some(r) if r == row => {}
+                Some(r) => diffs.push(json!({"collection": name, "row": id, "before": row, "after": r})),
+                None => diffs.push(json!({"collection": name, "row": id, "before": row, "after": null})),
+            }
+        }
+        if name != "gov_audit" {
+            for (id, row) in a {
+                if !b.contains_key(id) {
+                    diffs.push(json!({"collection": name, "row": id, "before": null, "after": row}));
+                }
+            }
+        }
+    }
+    if before.space != after.space {
+        diffs.push(json!({"collection": "spaces", "before": before.space, "after": after.space}));
+    }
+    for (id, (block, _)) in &before.blocks {
+        match after.blocks.get(id) {
+            Some((b, _)) if b == block => {}
+            Some((b, state)) => diffs.push(json!({"element": id, "state_after": state, "before": block, "after": b})),
+            None => diffs.push(json!({"element": id, "before": block, "after": null})),
+        }
+    }
+    stats.writer_rows += before.gov.values().map(|m| m.len()).sum::<usize>() + before.blocks.len();
+    for d in diffs {
+        out.push(json!({"mismatch": true, "part": 2, "case": case["n"], "fam": case["fam"], "cmd": "writer battery",
+                        "reason": "a session command changed protected governance state", "diff": d, "log": log}));
+    }
+}
+
+// ------------------------------------------------------------------------------------------------------------
+
+#[derive(Default)]
+struct Stats {
+    cases: usize,
+    principals: usize,
+    commands: usize,
+    compared: usize,
+    gate_denied: usize,
+    undecided: usize,
+    clones: usize,
+    writer_commands: usize,
+    writer_rows: usize,
+    mut_cases: usize,
+}
+
+struct Clone_ {
+    pop: Pop,
+    answers: HashMap<String, (Value, String)>,
 }
 
 #[tokio::main]
 async fn main() {
-    let nexus: CognitiveNexus = fresh("probe").await;
-    let owner = nexus.system_session();
-    let labels = ["public", "secret", "", "private"];
-    for (i, l) in labels.iter().enumerate() {
-        let cmd = format!(
-            r#"CREATE CONCEPT ?c {{ TYPE "{}" NAME "N{}" SET ATTRIBUTES {{tag: "zebra{}", rank: {}}} }}"#,
-            if i % 2 == 0 { "Person" } else { "Preference" },
-            i + 1,
-            i + 1,
-            10 - i
-        );
-        let r = run_as(&owner, &cmd, json!({})).await;
-        if i == 0 || r.status != anda_kip::TopLevelStatus::Succeeded {
-            show("create", &r);
+    let args: Vec<String> = std::env::args().collect();
+    if args.len() < 3 || args[1] != "run" {
+        eprintln!("usage: drive_governance run <cases.jsonl>");
+        std::process::exit(2);
+    }
+    let verbose = std::env::var("C19_VERBOSE").is_ok();
+    let file = std::fs::File::open(&args[2]).expect("cases file");
+    let mut fulls: HashMap<String, Pop> = HashMap::new();
+    let mut owner_ans: HashMap<(String, String), Value> = HashMap::new();
+    let mut clones: HashMap<(String, String), Clone_> = HashMap::new();
+    let mut stats = Stats::default();
+    let mut out: Vec<Value> = Vec::new();
+    let none = Extra { token: None, purpose: None };
+
+    for line in std::io::BufReader::new(file).lines() {
+        let line = line.unwrap();
+        if line.trim().is_empty() {
+            continue;
         }
-        if !l.is_empty() {
-            owner.classify(DEFAULT_SPACE, ElementId::new(anda_kip::ElementKind::Concept, i as u64 + 1), l).await.unwrap();
+        let case: Value = serde_json::from_str(&line).expect("case json");
+        let elems = elems_of(&case);
+        let popname = case["pop"].as_str().unwrap().to_string();
+        let bat = battery(&elems);
+        stats.cases += 1;
+        if !fulls.contains_key(&popname) {
+            fulls.insert(popname.clone(), build_pop(&popname, &elems, &Shape::full(elems.len())).await);
+        }
+        let full = &fulls[&popname];
+        let tag = format!("k{}", case["n"]);
+        let applied = apply(full, &case, &tag).await;
+
+        for e in case["expect"].as_array().unwrap() {
+            let p = e["p"].as_str().unwrap();
+            stats.principals += 1;
+            let held = strs(&e["held"]);
+            let ok = e["ok"].as_bool().unwrap();
+            let view = e["view"].as_array().unwrap();
+            let n = elems.len();
+            let mut shape = Shape { present: vec![false; n + 1], hide_name: vec![false; n + 1], hide_attrs: vec![false; n + 1] };
+            let mut props_decidable = true;
+            for i in 1..=n {
+                let v = &view[i - 1];
+                shape.present[i] = v["r"].as_bool().unwrap();
+                let mask = strs(&v["mask"]);
+                if shape.present[i] && !mask.is_empty() {
+                    shape.hide_name[i] = !mask.iter().any(|f| f == "name");
+                    shape.hide_attrs[i] = !mask.iter().any(|f| f == "attributes");
+                    if elems[i - 1].kind != "concept" {
+                        props_decidable = false; // the tuple's own members are masked
+                    }
+                }
+            }
+            for i in 1..=n {
+                if shape.present[i] && elems[i - 1].refs.iter().any(|r| !shape.present[*r as usize]) {
+                    props_decidable = false; // a readable tuple with a hidden endpoint: see REPORT
+                }
+            }
+            let masked = (1..=n).any(|i| shape.hide_name[i] || shape.hide_attrs[i]);
+            let key = (popname.clone(), shape.key());
+            if !clones.contains_key(&key) {
+                let cp = build_pop(&popname, &elems, &shape).await;
+                stats.clones += 1;
+                clones.insert(key.clone(), Clone_ { pop: cp, answers: HashMap::new() });
+            }
+            let (session, extra) = session_of(full, &applied, &case["cfg"], p);
+            let mut reported = 0usize;
+            let mut suppressed = 0usize;
+            for c in &bat {
+                if popname == "B" && c.props {
+                    continue;
+                }
+                stats.commands += 1;
+                let (got, text) = answer(&session, full, &elems, c, &extra).await;
+                let permitted = ok && c.needs.iter().all(|q| held.iter().any(|h| h == q));
+                let want: Value;
+                let mut want_text = String::new();
+                if !permitted {
+                    // a gate p does not pass, or a named Delegation chain that does not resolve: refused
+                    want = json!({"err": "NotAuthorized"});
+                    stats.gate_denied += 1;
+                } else {
+                    match &c.mode {
+                        Mode::Access => {
+                            let mut h = held.clone();
+                            h.sort();
+                            want = json!({"ok": h, "cursor": null});
+                            stats.compared += 1;
+                        }
+                        Mode::Primer => {
+                            let whole = e["whole"].as_bool().unwrap();
+                            if whole {
+                                let k = (popname.clone(), "primer".to_string());
+                                if !owner_ans.contains_key(&k) {
+                                    reset_space(full).await;
+                                    let (a, _) = answer(&full.nexus.system_session(), full, &elems, c, &none).await;
+                                    owner_ans.insert(k.clone(), a);
+                                    bind_space(full, &case, &applied, &tag).await;
+                                }
+                                want = owner_ans[&k].clone();
+                            } else {
+                                want = json!({"ok": {"withheld": true, "contents": got["ok"]["contents"]}, "cursor": null});
+                            }
+                            stats.compared += 1;
+                        }
+                        Mode::AsOf(_) | Mode::Token(_) => {
+                            if masked || (c.props && !props_decidable) {
+                                stats.undecided += 1;
+                                continue;
+                            }
+                            // the owner's answer at the same coordinate of the same store, restricted to what p may read
+                            let k = (popname.clone(), c.name.clone());
+                            if !owner_ans.contains_key(&k) {
+                                // the owner may be denied by the case's policy: ask with the Space reset
+                                reset_space(full).await;
+                                let (a, _) = answer(&full.nexus.system_session(), full, &elems, c, &none).await;
+                                owner_ans.insert(k.clone(), a);
+                                bind_space(full, &case, &applied, &tag).await;
+                            }
+                            let own = &owner_ans[&k];
+                            let rows: Vec<Value> = own["ok"].as_array().cloned().unwrap_or_default().into_iter().filter(|row| {
+                                row.as_str().and_then(|s| s.strip_prefix('#')).and_then(|k| k.parse::<usize>().ok())
+                                    .map(|k| shape.present[k]).unwrap_or(true)
+                            }).collect();
+                            want = if own.get("err").is_some() { own.clone() } else { json!({"ok": rows}) };
+                            stats.compared += 1;
+                        }
+                        _ => {
+                            if c.props && !props_decidable {
+                                stats.undecided += 1;
+                                continue;
+                            }
+                            let cl = clones.get_mut(&key).unwrap();
+                            if !cl.answers.contains_key(&c.name) {
+                                let a = answer(&cl.pop.nexus.system_session(), &cl.pop, &elems, c, &none).await;
+                                cl.answers.insert(c.name.clone(), a);
+                            }
+                            let (w, wt) = cl.answers[&c.name].clone();
+                            want = w;
+                            want_text = wt;
+                            stats.compared += 1;
+                        }
+                    }
+                }
+                for side in [&got, &want] {
+                    if side["err"].as_str().is_some_and(|e| e.starts_with("PARSE") || e.starts_with("TOOL")) {
+                        eprintln!("battery command {} does not parse: {text}: {side}", c.name);
+                        std::process::exit(3);
+                    }
+                }
+                if verbose {
+                    eprintln!("case {} {p} {}: {}\n   got  {got}\n   want {want}", case["n"], c.name, text);
+                }
+                if got != want {
+                    if reported < usize::MAX {
+                        out.push(json!({"mismatch": true, "part": 1, "case": case["n"], "fam": case["fam"], "pop": popname, "p": p,
+                            "cmd": c.name, "text": text, "probe": c.probe, "needs": c.needs, "held": held, "masked": masked,
+                            "readable": (1..=n).filter(|i| shape.present[*i]).collect::<Vec<_>>(),
+                            "hide_name": (1..=n).filter(|i| shape.hide_name[*i]).collect::<Vec<_>>(),
+                            "hide_attrs": (1..=n).filter(|i| shape.hide_attrs[*i]).collect::<Vec<_>>(),
+                            "got": got, "want": want, "clone_text": want_text}));
+                        reported += 1;
+                    } else {
+                        suppressed += 1;
+                    }
+                }
+            }
+            if suppressed > 0 {
+                out.push(json!({"mismatch": true, "part": 1, "case": case["n"], "fam": case["fam"], "pop": popname, "p": p,
+                                "cmd": "(more)", "suppressed": suppressed}));
+            }
+        }
+        reset_space(full).await;
+        if case["mut"].as_bool().unwrap_or(false) {
+            stats.mut_cases += 1;
+            part2(&case, &elems, &mut out, &mut stats).await;
         }
     }
-    let r = run_as(&owner, r#"ENSURE PROPOSITION ?p ({id: "C-1"}, "mentions", {id: "C-2"})"#, json!({})).await;
-    show("ensure", &r);
-    let r = run_as(&owner, r#"FIND(?p) WHERE { ?p PROPOSITION (?s, "mentions", ?o) }"#, json!({})).await;
-    show("prop", &r);
-    let r = run_as(&owner, r#"FIND(?c) WHERE { ?c CONCEPT {id: "C-2"} }"#, json!({})).await;
-    show("owner C-2", &r);
-    let gov = nexus.governance();
-    gov.ensure_principal(PrincipalDraft {
-        principal_id: "kip:principal:a".into(),
-        principal_class: principal_class::AGENT.into(),
-        display_name: "a".into(),
-        auth_provider: "t".into(),
-        auth_subject: "a".into(),
-    })
-    .await
-    .unwrap();
-    gov.create_grant(
-        GrantDraft {
-            space_id: DEFAULT_SPACE.into(),
-            grantee_principal: "kip:principal:a".into(),
-            actions: ["read", "search", "discover", "read_history", "export"].iter().map(|s| s.to_string()).collect(),
-            scope: AuthorityScope::default(),
-            constraints: AuthorityConstraints { max_classification: "internal".into(), export: true, ..Default::default() },
-            ..Default::default()
-        },
-        SYSTEM_PRINCIPAL,
-    )
-    .await
-    .unwrap();
-    let a = nexus.session(AuthContext::principal("kip:principal:a"));
-    for cmd in [
-        r#"FIND(?c.id, ?c.name) WHERE { ?c CONCEPT {} }"#,
-        r#"FIND(?p, ?s, ?o.name) WHERE { ?p PROPOSITION (?s, "mentions", ?o) }"#,
-        r#"HISTORY SPACE"#,
-        r#"HISTORY SPACE LIMIT 2"#,
-        r#"HISTORY ELEMENT "C-2" LIMIT 1"#,
-        r#"HISTORY ELEMENT "C-99" LIMIT 1"#,
-        r#"SEARCH CONCEPT "zebra2""#,
-        r#"SEARCH CONCEPT "N1" LIMIT 1"#,
-        r#"DESCRIBE PRIMER"#,
-        r#"SNAPSHOT"#,
-        r#"EXPORT CAPSULE ?c WHERE { ?c CONCEPT {} }"#,
-        r#"CHANGES AFTER SEQ 0"#,
-        r#"FIND(?c.name) WHERE { ?c CONCEPT {} } AS OF SEQ 3"#,
-        r#"DESCRIBE ACCESS"#,
-    ] {
-        let r = run_as(&a, cmd, json!({})).await;
-        show(&format!("a: {cmd}"), &r);
+    let n_mis = out.len();
+    for m in out {
+        println!("{}", serde_json::to_string(&m).unwrap());
     }
-    let r = run_as(&owner, "HISTORY SPACE", json!({})).await;
-    show("owner history", &r);
-    let txs = r.first_result().unwrap().as_array().unwrap().clone();
-    for t in &txs {
-        let id = t["tx_id"].as_str().unwrap();
-        let r = run_as(&a, &format!(r#"DESCRIBE TRANSACTION "{id}""#), json!({})).await;
-        println!("a: DESCRIBE TRANSACTION {id} -> {}", serde_json::to_string(&r.first_result()).unwrap());
-    }
-    let e = nexus.store.get_element(ElementId::new(anda_kip::ElementKind::Concept, 2)).await.unwrap();
-    println!("gov block C-2: {}", e.governance());
+    println!("{}", json!({"summary": true, "cases": stats.cases, "principals": stats.principals, "commands": stats.commands,
+        "compared": stats.compared, "gate_denied": stats.gate_denied, "undecided": stats.undecided, "clones": stats.clones,
+        "mut_cases": stats.mut_cases, "writer_commands": stats.writer_commands, "writer_rows": stats.writer_rows,
+        "mismatches": n_mis}));
 }
